@@ -7,7 +7,7 @@
 From Flocq Require Import Binary Bits.
 From E57 Require Import Base.Prelude Base.Floats Model.Record Model.PcWriter Spec.BitSpec
   Model.Meta Model.WriterApi.
-From E57 Require Import Proofs.PcWriterLemmas.
+From E57 Require Import Proofs.PcWriterLemmas Proofs.WapiFloatOrder.
 From Coq Require Import ZifyN ZifyNat ZifyBool.
 Ltac Zify.zify_post_hook ::= Z.div_mod_to_equations.
 Open Scope N_scope.
@@ -68,6 +68,17 @@ Definition registered (exts : list extension) (ns : xstring) : Prop :=
 Definition range_ok (t : data_type) : Prop :=
   match t with DInteger mn mx | DScaledInteger mn mx _ _ => (mn <= mx)%Z | _ => True end.
 
+(** limits of float records are numbers, minimum <= maximum (a Single's limits as f64) *)
+Definition limits_ordered (mn mx : option binary64) : Prop :=
+  (forall a, mn = Some a -> not_nan a) /\ (forall b, mx = Some b -> not_nan b) /\
+  (forall a b, mn = Some a -> mx = Some b -> f64_le a b = true).
+Definition float_range_ok (t : data_type) : Prop :=
+  match t with
+  | DSingle mn mx => limits_ordered (option_map f64_of_t32 mn) (option_map f64_of_t32 mx)
+  | DDouble mn mx => limits_ordered (option_map f64_of_t64 mn) (option_map f64_of_t64 mx)
+  | _ => True
+  end.
+
 (** bits of one point, and: a data packet with one point - 6 bytes header, two bytes per
     record, the data with up to seven left-over bits per record, padding - fits the u16 length *)
 Definition point_bits_of (proto : list record) : N :=
@@ -94,7 +105,8 @@ Definition representable_prototype (exts : list extension) (proto : list record)
   NoDup (map r_name proto) /\
   (forall ns name t, In (mkRecord (Unknown ns name) t) proto ->
      name_wf ns /\ name_wf name /\ name_start_ok name /\ registered exts ns) /\
-  fits_packet proto.
+  fits_packet proto /\
+  (forall p, In p proto -> float_range_ok (r_type p)).
 
 (** a value fits a record: same kind, integers inside the declared range *)
 Definition representable_value (t : data_type) (v : rvalue) : Prop :=
@@ -229,7 +241,29 @@ Definition rules_part (proto : list record) : Prop :=
   integer_rule proto ReturnCount /\ integer_rule proto ReturnIndex /\
   integer_rule proto RowIndex /\ integer_rule proto ColumnIndex /\
   (forall p, In p proto -> range_ok (r_type p)) /\
-  NoDup (map r_name proto) /\ nodup_names proto = true.
+  NoDup (map r_name proto) /\ nodup_names proto = true /\
+  (forall p, In p proto -> float_range_ok (r_type p)).
+
+Lemma float_limits_check_iff mn mx : float_limits_check mn mx = true <-> limits_ordered mn mx.
+Proof.
+  unfold float_limits_check, limits_ordered. split.
+  - intros H. apply andb_prop in H as [H H3]. apply andb_prop in H as [H1 H2].
+    assert (N1 : forall a, mn = Some a -> not_nan a).
+    { intros a ->. unfold not_nan. destruct (f64_is_nan a); [discriminate|reflexivity]. }
+    assert (N2 : forall b, mx = Some b -> not_nan b).
+    { intros b ->. unfold not_nan. destruct (f64_is_nan b); [discriminate|reflexivity]. }
+    split; [exact N1|]. split; [exact N2|]. intros a b Ea Eb. pose proof (N1 a Ea) as Na. pose proof (N2 b Eb) as Nb. subst.
+    rewrite (f64_gt_lt a b Na Nb) in H1. apply f64_not_lt_le; try assumption.
+    destruct (f64_lt b a); [discriminate|reflexivity].
+  - intros (N1 & N2 & Hle). apply andb_true_intro. split; [apply andb_true_intro; split|].
+    + destruct mn as [a|], mx as [b|]; try reflexivity. pose proof (N1 a eq_refl) as Na. pose proof (N2 b eq_refl) as Nb.
+      rewrite (f64_gt_lt a b Na Nb). specialize (Hle a b eq_refl eq_refl). apply (f64_le_key a b Na Nb) in Hle.
+      destruct (f64_lt b a) eqn:E; [|reflexivity]. apply (f64_lt_key b a Nb Na) in E. contradiction.
+    + destruct mn as [a|]; [|reflexivity]. rewrite (N1 a eq_refl). reflexivity.
+    + destruct mx as [b|]; [|reflexivity]. rewrite (N2 b eq_refl). reflexivity.
+Qed.
+Lemma float_limits_ok_iff t : float_limits_ok t = true <-> float_range_ok t.
+Proof. destruct t; cbn [float_limits_ok float_range_ok]; try apply float_limits_check_iff; tauto. Qed.
 
 Lemma in_contains proto p : In p proto -> contains proto (r_name p) = true.
 Proof. intros H. apply contains_has. exists (r_type p). destruct p; exact H. Qed.
@@ -261,7 +295,7 @@ Proof.
   apply seq_res_ok in H as [Hc H]. apply seq_res_ok in H as [Hs H].
   apply seq_res_ok in H as [Hco H]. apply seq_res_ok in H as [Hcol H].
   apply seq_res_ok in H as [Hret H]. apply seq_res_ok in H as [Hnd H]. apply seq_res_ok in H as [Hrng H].
-  apply seq_res_ok in H as [Hrow H]. apply seq_res_ok in H as [Hcl H].
+  apply seq_res_ok in H as [Hflt H]. apply seq_res_ok in H as [Hrow H]. apply seq_res_ok in H as [Hcl H].
   apply seq_res_ok in H as [Hii Hts].
   unfold validate_cartesian in Hc. cbv zeta in Hc.
   destruct (negb (count3 proto CartesianX CartesianY CartesianZ =? 0) && _) eqn:Ec; [discriminate|].
@@ -289,7 +323,9 @@ Proof.
   split; [apply integer_if_present_ok; exact Hr1|]. split; [apply integer_if_present_ok; exact Hr2|].
   split; [apply integer_if_present_ok; exact Hrow|]. split; [apply integer_if_present_ok; exact Hcl|].
   destruct (nodup_names proto) eqn:End; [|discriminate].
-  split; [|split; [apply nodup_names_NoDup; exact End|reflexivity]].
+  split; [|split; [apply nodup_names_NoDup; exact End|split; [reflexivity|]]].
+  2:{ intros p Hin. destruct (forallb (fun p => float_limits_ok (r_type p)) proto) eqn:Ef; [|discriminate].
+      rewrite forallb_forall in Ef. apply float_limits_ok_iff. apply Ef. exact Hin. }
   intros p Hin.
   destruct (forallb (fun p => range_nonempty (r_type p)) proto) eqn:Ef; [|discriminate].
   rewrite forallb_forall in Ef. specialize (Ef p Hin).
@@ -308,7 +344,7 @@ Definition idx_typed (proto : list record) : Prop :=
 Lemma accepted_idx_typed proto : validate_prototype proto = Ok tt -> idx_typed proto.
 Proof.
   intros H. apply validate_prototype_ok in H.
-  destruct H as (_ & _ & _ & _ & _ & _ & _ & _ & _ & _ & _ & _ & _ & Hri & Hrow & Hcol & _ & _ & Hnd).
+  destruct H as (_ & _ & _ & _ & _ & _ & _ & _ & _ & _ & _ & _ & _ & Hri & Hrow & Hcol & _ & _ & Hnd & _).
   intros p Hin. pose proof (nodup_get_rec proto p Hnd Hin) as Hg.
   destruct (get_rec_first _ _ _ Hg) as (_ & Hf).
   destruct (r_name p) eqn:En; cbn [axis_of]; try exact I.
